@@ -32,7 +32,9 @@ def gen(rng: random.Random, tier: str):
         nfin = sum(1 for x in raw if isinstance(x, float))
         yield {"scores": raw, "transform": rng.choice(["linear", None]), "cfg_n": rng.choice([None, -1, 0, 1, 3, 20]),
                "run_n": rng.choice([None, None, -1, 0, 2, 5, 50]), "us": [rng.uniform(1e-6, 1) for _ in range(nfin)],
-               "perm": rng.sample(range(N), N), "kind": "stochastic" if k % 4 else "random"}
+               "perm": rng.sample(range(N), N), "kind": "stochastic" if k % 4 else "random",
+               # the configured scale factor (powers of two, so that scaling is exact in float32 and float64 alike); ≤ 0 is legitimate
+               "scale": rng.choice([1.0, 1.0, 1.0, 0.5, 2.0, -1.0, 0.0, -2.0])}
     for _ in range({"quick": 6, "thorough": 60}[tier]):
         yield {"kind": "anonymous", "seed": rng.randrange(10**6), "which": rng.choice(["random", "stochastic", "stochastic-linear"])}
     if tier == "thorough":
@@ -86,13 +88,15 @@ def run(case: dict, lean: Lean) -> Outcome:
         return Outcome(spec, spec, ("uniform selection", "n above eligible" if n_eff > N else "n within"), {"impl": real, "failed": failed}, None)
     before = il.scores().copy() if N else np.array([])
     g = Scripted(us=case["us"])
-    rk = StochasticTopNRanker(n=case["cfg_n"], transform=case["transform"]); rk._rng_factory = lambda _q: g
+    scale = float(case.get("scale", 1.0))
+    rk = StochasticTopNRanker(n=case["cfg_n"], transform=case["transform"], scale=scale); rk._rng_factory = lambda _q: g
     try:
         out = rk(il, n=case["run_n"]); real = [int(i) - 10 for i in out.ids()]
     except Exception as e:
         real = "EXC:" + type(e).__name__; out = None
     scs = [None if (isinstance(x, float) and math.isnan(x)) else "inf" if x == math.inf else "-inf" if x == -math.inf else rat(x) for x in raw]
-    w = (lean.call("c19.linear", dict(scores=[rat(x) for x in fin])) if fin else []) if case["transform"] == "linear" else [rat(x) for x in fin]
+    scaled = [x * scale for x in fin]          # the scores every transform starts from
+    w = (lean.call("c19.linear", dict(scores=[rat(x) for x in scaled])) if fin else []) if case["transform"] == "linear" else [rat(x) for x in scaled]
     pos = lean.call("c19.rank", dict(scores=scs, nCfg=case["cfg_n"], nRun=case["run_n"], weights=w,
                                      logu=[rat(math.log(u)) for u in case["us"]], eps=rat(EPS)))
     corr = real == pos
@@ -119,6 +123,7 @@ def run(case: dict, lean: Lean) -> Outcome:
     if fin and 0 < max(abs(x) for x in fin) < 1e-6: classes.append("tiny score magnitudes")
     if fin and max(abs(x) for x in fin) > 1e5: classes.append("large score magnitudes")
     if case["run_n"] is not None and case["run_n"] >= 0: classes.append("run-time n")
+    if scale != 1.0: classes.append("scale ≤ 0" if scale <= 0 else "scale ≠ 1")
     return Outcome(corr, spec and corr, tuple(classes), {"impl": real, "model": pos, "failed": failed}, None)
 
 def shrink(case: dict):
